@@ -398,6 +398,29 @@ def cmdFmt (args : List String) : String :=
   | [bits] => Spec.fmtFloat (Float.ofBits (UInt64.ofNat bits.toNat!))
   | _ => "bad-request"
 
+/-- `unify <arg>|<param>;…`: the arguments of one call against the parameter types -/
+def cmdUnify (args : List String) : String :=
+  match args with
+  | [spec] =>
+    let pairs := (spec.splitOn ";").map fun pr =>
+      match pr.splitOn "|" with
+      | [a, p] => ((DDP.Generics.parseTy a.toList).1, (DDP.Generics.parseTy p.toList).1)
+      | _ => (DDP.Generics.Ty.prim 0, DDP.Generics.Ty.prim 0)
+    let rec go (ps : List (DDP.Generics.Ty × DDP.Generics.Ty)) (σ : DDP.Generics.Bindings) (acc : List String) : List String × DDP.Generics.Bindings :=
+      match ps with
+      | [] => (acc.reverse, σ)
+      | (a, p) :: r =>
+        match DDP.Generics.unify a p σ with
+        | (none, σ') => (("0:nil" :: acc).reverse, σ')
+        | (some t, σ') =>
+          let f := DDP.Generics.Ty.beq a t
+          let acc := ((if f then "1:" else "0:") ++ t.toStr) :: acc
+          if f then go r σ' acc else (acc.reverse, σ')
+    let (outs, σ) := go pairs [] []
+    let sorted := σ.toArray.qsort (fun x y => ("G" ++ toString x.1) < ("G" ++ toString y.1)) |>.toList
+    " ".intercalate outs ++ " | " ++ DDP.Generics.showBindings sorted
+  | _ => "bad-request"
+
 def dispatch (line : String) : String :=
   match (line.splitOn " ").filter (· ≠ "") with
   | "scan" :: args => cmdScan args
@@ -418,7 +441,9 @@ def dispatch (line : String) : String :=
   | "abs" :: args => cmdText "abs" args
   | "flt" :: args => cmdFlt args
   | "typos" :: args => cmdTypos args
+  | "unify" :: args => cmdUnify args
   | _ => "bad-request"
+
 
 partial def loop (h : IO.FS.Stream) (out : IO.FS.Stream) : IO Unit := do
   let line ← h.getLine
